@@ -166,11 +166,12 @@ pub(crate) struct CreatePromiseCapability;
 impl CreatePromiseCapability {
     #[inline(always)]
     pub(super) fn operation((): (), context: &mut Context) -> JsResult<()> {
+        // NOTE: constructing the intrinsic promise cannot throw per spec, but it can still be
+        // cut off by a runtime limit, which must reach the host unchanged.
         let promise_capability = PromiseCapability::new(
             &context.intrinsics().constructors().promise().constructor(),
             context,
-        )
-        .js_expect("cannot fail per spec")?;
+        )?;
 
         context.vm.set_promise_capability(promise_capability)
     }
